@@ -309,7 +309,7 @@ def jobs(tier):
     # the positive phase the update rule uses is checked above against the library's own positive_phase_gradients; that this is the
     # mean of the per-sample gradients for batches MIXING reference-basis and rotated rows is C03's composition scenario, run here too
     J.append(dict(name="positive-phase-of-mixed-basis-batches", module="checks.c03", scenario="batch",
-                  kwargs=dict(kind="complex", n=2, h=1, a=None, data=[[0, 1], [1, 1], [1, 0], [0, 0]], bases=["ZZ", "XZ", "ZZ", "YX"]), opts=dict(ropts)))
+                  kwargs=dict(kind="complex", n=2, h=1, a=None, data=[[0, 1], [1, 1], [1, 0], [0, 0]], bases=["ZZ", "XZ", "YX", "ZZ"]), opts=dict(ropts)))
     if tier != "quick":
         J.append(dict(name="two-runs-mixed-111", module="checks.c06", scenario="two_runs", kwargs=dict(kind="mixed", n=1, h=1, a=1, data=[[0], [1], [1]], bases=["Z", "Y", "Z"]), opts=dict(ropts)))
         add("positive-2x2-N4-bs3-neg2-k3", kind="positive", n=2, h=2, a=None, data=d4, bases=None, bs=3, nbs=2, k=3)
